@@ -16,6 +16,13 @@
 //   lwrite <file> <x> <v> <f> <L>    one-bead topology (votca units) through the real LAMMPSDumpWriter,
 //                                    numbers parsed back from the text:         lobs dumpwriter_<q> <out/in>
 //   ldata <file> <x> <L> <m> <q>     one-atom LAMMPS data file through LAMMPSDataReader::ReadTopology
+//   gwrite <file> <Lx Ly Lz> <x y z> <vx vy vz> <fx fy fz>
+//                              one-bead topology (votca units) through the real writer chosen by the file
+//                              extension (gro, xyz, pdb, dlph); the checker parses the text
+//   gread <file>               one-bead topology, real reader chosen by the extension, FirstFrame:
+//                                                                               gobs pos|vel|frc|box a b c
+//   exprs                      products of header constants used in the sources: expr <name> <value>
+//   radii <symbol>             getCovRad(ang|bohr|nm|<bad unit>), getVdWChelpG, getVdWMK, getPolarizability
 //   element <Z> <symbol>       tools::Elements getters for that number / symbol
 //   hnew                       start a call history: a new persistent tools::Elements object
 //   hcall <method> <args>      the call on the persistent object AND on a fresh object:
@@ -41,7 +48,16 @@
 #include <votca/tools/elements.h>
 #include <votca/tools/unitconverter.h>
 
+#include <votca/csg/pdbwriter.h>
+#include <votca/csg/xyzreader.h>
+#include <votca/csg/xyzwriter.h>
+
+#include "modules/io/dlpolytrajectoryreader.h"
+#include "modules/io/dlpolytrajectorywriter.h"
+#include "modules/io/groreader.h"
+#include "modules/io/growriter.h"
 #include "modules/io/lammpsdatareader.h"
+#include "modules/io/pdbreader.h"
 #include "modules/io/lammpsdumpreader.h"
 #include "modules/io/lammpsdumpwriter.h"
 
@@ -155,7 +171,16 @@ static std::string elementsCall(Elements &el, const std::string &m, std::istring
       std::string n;
       args >> n;
       if (!args) return "?";
-      if (m == "getMass")
+      if (m == "getCovRadAng" || m == "getCovRadBohr" || m == "getCovRadNm" || m == "getCovRadBadUnit") {
+        // a miss dereferences end() in getCovRad: only names the mass table knows are passed on
+        Elements probe;
+        try {
+          probe.getMass(n);
+        } catch (const std::exception &) {
+          return "?";
+        }
+        o << "=" << el.getCovRad(n, m == "getCovRadAng" ? "ang" : m == "getCovRadBohr" ? "bohr" : m == "getCovRadNm" ? "nm" : "pm");
+      } else if (m == "getMass")
         o << "=" << el.getMass(n);
       else if (m == "getNucCrg")
         o << "=" << el.getNucCrg(n);
@@ -254,6 +279,22 @@ int main() {
         out << "declared LAMMPSDumpWriter velocity " << name(dw.velocity_unit) << std::endl;
         LAMMPSDataReader da;
         declared("LAMMPSDataReader", da);
+        GROReader gr;
+        declared("GROReader", gr);
+        out << "declared GROReader velocity " << name(gr.velocity_unit) << std::endl;
+        GROWriter gw;
+        declared("GROWriter", gw);
+        out << "declared GROWriter velocity " << name(gw.velocity_unit) << std::endl;
+        DLPOLYTrajectoryReader dlr;
+        declared("DLPOLYTrajectoryReader", dlr);
+        out << "declared DLPOLYTrajectoryReader velocity " << name(dlr.velocity_unit) << std::endl;
+        DLPOLYTrajectoryWriter dlw;
+        declared("DLPOLYTrajectoryWriter", dlw);
+        out << "declared DLPOLYTrajectoryWriter velocity " << name(dlw.velocity_unit) << std::endl;
+        out << "declared XYZReader distance " << name(XYZReader().distance_unit) << std::endl;
+        out << "declared XYZWriter distance " << name(XYZWriter().distance_unit) << std::endl;
+        out << "declared PDBReader distance " << name(PDBReader().distance_unit) << std::endl;
+        out << "declared PDBWriter distance " << name(PDBWriter().distance_unit) << std::endl;
       } else if (cmd == "lexpr") {
         // the same expressions as in the three source files, from the header constants
         out << "lexpr dumpreader_pos " << 1.0 * conv::ang2nm << std::endl;
@@ -271,17 +312,23 @@ int main() {
         out << "lexpr datareader_mass " << 1.0 << std::endl;
         out << "lexpr datareader_charge " << 1.0 << std::endl;
       } else if (cmd == "lread") {
+        // two frames in one file: frame 2 carries the values times -2 (negative, other magnitude); the SAME
+        // reader object reads both (FirstFrame, NextFrame); then the rarely used topology path
+        // (TopologyReader::ReadTopology of a .dump) reads frame 1 again
         std::string file;
         double x, v, f, L;
         in >> file >> x >> v >> f >> L;
         {
           std::ofstream o(file);
           o.precision(17);
-          o << "ITEM: TIMESTEP\n0\nITEM: NUMBER OF ATOMS\n1\nITEM: BOX BOUNDS pp pp pp\n";
-          o << "0 " << L << "\n0 " << L << "\n0 " << L << "\n";
-          o << "ITEM: ATOMS id type x y z vx vy vz fx fy fz\n";
-          o << "1 1 " << x << " " << x << " " << x << " " << v << " " << v << " " << v << " " << f << " " << f << " "
-            << f << "\n";
+          for (int fr = 0; fr < 2; ++fr) {
+            double s = fr == 0 ? 1.0 : -2.0;
+            o << "ITEM: TIMESTEP\n" << fr << "\nITEM: NUMBER OF ATOMS\n1\nITEM: BOX BOUNDS pp pp pp\n";
+            o << "0 " << L * (fr + 1) << "\n0 " << L * (fr + 1) << "\n0 " << L * (fr + 1) << "\n";
+            o << "ITEM: ATOMS id type x y z vx vy vz fx fy fz\n";
+            o << "1 1 " << s * x << " " << s * x << " " << s * x << " " << s * v << " " << s * v << " " << s * v << " "
+              << s * f << " " << s * f << " " << s * f << "\n";
+          }
         }
         Topology top;
         top.CreateResidue("R");
@@ -290,15 +337,34 @@ int main() {
         std::unique_ptr<TrajectoryReader> r = TrjReaderFactory().Create(file);
         if (!r) throw std::runtime_error("driver: no reader");
         r->Open(file);
-        r->FirstFrame(top);
-        r->Close();
-        Bead *b = top.getBead(0);
-        for (int k = 0; k < 3; ++k) {
-          out << "lobs dumpreader_pos " << b->getPos()[k] / x << std::endl;
-          out << "lobs dumpreader_vel " << b->getVel()[k] / v << std::endl;
-          out << "lobs dumpreader_force " << b->getF()[k] / f << std::endl;
-          out << "lobs dumpreader_box " << top.getBox()(k, k) / L << std::endl;
+        for (int fr = 0; fr < 2; ++fr) {
+          if (fr == 0)
+            r->FirstFrame(top);
+          else
+            r->NextFrame(top);
+          double s = fr == 0 ? 1.0 : -2.0;
+          Bead *b = top.getBead(0);
+          for (int k = 0; k < 3; ++k) {
+            out << "lobs dumpreader_pos " << b->getPos()[k] / (s * x) << std::endl;
+            out << "lobs dumpreader_vel " << b->getVel()[k] / (s * v) << std::endl;
+            out << "lobs dumpreader_force " << b->getF()[k] / (s * f) << std::endl;
+            out << "lobs dumpreader_box " << top.getBox()(k, k) / (L * (fr + 1)) << std::endl;
+          }
+          out << "lframe " << fr << std::endl;
         }
+        r->Close();
+        Topology top2;
+        std::unique_ptr<TopologyReader> tr = TopReaderFactory().Create(file);
+        if (!tr) throw std::runtime_error("driver: no topology reader for dump");
+        tr->ReadTopology(file, top2);
+        if (top2.BeadCount() != 1) throw std::runtime_error("driver: bead count from dump topology");
+        for (int k = 0; k < 3; ++k) {
+          out << "lobs dumpreader_pos " << top2.getBead(0)->getPos()[k] / x << std::endl;
+          out << "lobs dumpreader_vel " << top2.getBead(0)->getVel()[k] / v << std::endl;
+          out << "lobs dumpreader_force " << top2.getBead(0)->getF()[k] / f << std::endl;
+          out << "lobs dumpreader_box " << top2.getBox()(k, k) / L << std::endl;
+        }
+        out << "ltopology 1" << std::endl;
       } else if (cmd == "lstyle") {
         std::string file, style;
         double L[3], p[2][3];
@@ -415,6 +481,29 @@ int main() {
         }
         out << "lobs datareader_mass " << b->getMass() / m << std::endl;
         out << "lobs datareader_charge " << b->getQ() / q << std::endl;
+        // trajectory path of the same class (TrjReaderFactory "data"): a second file with the position and the
+        // box times -3 / 3, read into the topology just built
+        std::string file2 = file + ".2.data";
+        {
+          std::ofstream o(file2);
+          o.precision(17);
+          o << "LAMMPS data file written by the verification driver\n\n";
+          o << "1 atoms\n1 atom types\n\n";
+          o << "0 " << 3 * L << " xlo xhi\n0 " << 3 * L << " ylo yhi\n0 " << 3 * L << " zlo zhi\n\n";
+          o << "Masses\n\n1 " << m << "\n\n";
+          o << "Atoms # full\n\n";
+          o << "1 1 1 " << q << " " << -3 * x << " " << -3 * x << " " << -3 * x << "\n\n";
+        }
+        std::unique_ptr<TrajectoryReader> tr = TrjReaderFactory().Create(file2);
+        if (!tr) throw std::runtime_error("driver: no trajectory reader for data");
+        tr->Open(file2);
+        tr->FirstFrame(top);
+        tr->Close();
+        for (int k = 0; k < 3; ++k) {
+          out << "lobs datareader_pos " << top.getBead(0)->getPos()[k] / (-3 * x) << std::endl;
+          out << "lobs datareader_box " << top.getBox()(k, k) / (3 * L) << std::endl;
+        }
+        out << "ltrajectory 1" << std::endl;
       } else if (cmd == "hnew") {
         hist.reset(new Elements());
         out << "ok" << std::endl;
@@ -428,6 +517,87 @@ int main() {
         std::string b = elementsCall(fresh, m, std::istringstream(rest));
         if (a == "?" || b == "?") throw std::runtime_error("driver: bad hcall " + line);
         out << "hres " << a << " " << b << std::endl;
+      } else if (cmd == "gwrite") {
+        std::string file;
+        double L[3], x[3], v[3], f[3];
+        in >> file;
+        for (double &d : L) in >> d;
+        for (double &d : x) in >> d;
+        for (double &d : v) in >> d;
+        for (double &d : f) in >> d;
+        if (!in) throw std::runtime_error("driver: short gwrite command");
+        Topology top;
+        top.CreateResidue("RES");
+        top.RegisterBeadType("C");
+        Bead *b = top.CreateBead(Bead::spherical, "C", "C", 0, 12.0, 0.5);
+        b->setPos(Eigen::Vector3d(x[0], x[1], x[2]));
+        b->setVel(Eigen::Vector3d(v[0], v[1], v[2]));
+        b->setF(Eigen::Vector3d(f[0], f[1], f[2]));
+        top.SetHasVel(true);
+        top.SetHasForce(true);
+        Eigen::Matrix3d box = Eigen::Matrix3d::Zero();
+        for (int k = 0; k < 3; ++k) box(k, k) = L[k];
+        top.setBox(box);
+        top.setStep(7);
+        top.setTime(0.25);
+        std::unique_ptr<TrajectoryWriter> w = TrjWriterFactory().Create(file);
+        if (!w) throw std::runtime_error("driver: no writer");
+        w->Open(file, false);
+        w->Write(&top);
+        w->Close();
+        out << "ok" << std::endl;
+      } else if (cmd == "gread") {
+        std::string file;
+        in >> file;
+        Topology top;
+        top.CreateResidue("RES");
+        top.RegisterBeadType("C");
+        top.CreateBead(Bead::spherical, "C", "C", 0, 12.0, 0.5);
+        std::unique_ptr<TrajectoryReader> r = TrjReaderFactory().Create(file);
+        if (!r) throw std::runtime_error("driver: no reader");
+        r->Open(file);
+        r->FirstFrame(top);
+        r->Close();
+        Bead *b = top.getBead(0);
+        auto V = [&](const char *tag, const Eigen::Vector3d &a) {
+          out << "gobs " << tag << " " << a.x() << " " << a.y() << " " << a.z() << std::endl;
+        };
+        if (b->HasPos()) V("pos", b->getPos());
+        if (b->HasVel()) V("vel", b->getVel());
+        if (b->HasF()) V("frc", b->getF());
+        V("box", top.getBox().diagonal());
+      } else if (cmd == "exprs") {
+        // csg/src/csg_boltzmann/tabulatedpotential.cc: k_B T in kJ/mol
+        out << "expr kB_times_ev2kj_per_mol " << conv::kB * conv::ev2kj_per_mol << std::endl;
+      } else if (cmd == "radii") {
+        std::string sym;
+        in >> sym;
+        Elements el;
+        auto S = [&](const char *tag, auto fn) {
+          try {
+            auto val = fn();
+            out << "rad " << tag << " " << val << std::endl;
+          } catch (const std::exception &) {
+            out << "rad " << tag << " !" << std::endl;
+          }
+        };
+        // getCovRad dereferences end() for a name it does not know: only asked when the mass table knows it
+        bool known = true;
+        try {
+          el.getMass(sym);
+        } catch (const std::exception &) {
+          known = false;
+        }
+        if (known) {
+          S("covrad_ang", [&] { return el.getCovRad(sym, "ang"); });
+          S("covrad_bohr", [&] { return el.getCovRad(sym, "bohr"); });
+          S("covrad_nm", [&] { return el.getCovRad(sym, "nm"); });
+          S("covrad_badunit", [&] { return el.getCovRad(sym, "pm"); });
+          S("covrad_ang_again", [&] { return el.getCovRad(sym, "ang"); });
+        }
+        S("vdw_chelpg", [&] { return el.getVdWChelpG(sym); });
+        S("vdw_mk", [&] { return el.getVdWMK(sym); });
+        S("polarizability", [&] { return el.getPolarizability(sym); });
       } else if (cmd == "element") {
         Index z;
         std::string sym;
